@@ -68,8 +68,8 @@ add("C01", "other",
     "contract-based deductive verification of the real code for safety/layout/index clauses; bounded run-time evaluation of the stated traversal contract where no inductive proof is attempted",
     "DESIGN.md section 4 C01")
 add("C08", "other",
-    "Deductive: purity (`pure` + `reads addr[0:3]` clauses discharged by the go/ssa effects back end) and frames of the traversal step functions, identity of a jump to the current index (lemma function), identical evolution of the index on both paths. Bounded stand-in for the step-equivalence lemma: with the real hashes the complete traversal state and the next signature at every index of height 4 (4,6 thorough), all three hash functions, agree between signing, one jump and two jumps.",
-    "The product-program lemma 'one Sign step == one fast-forward step' is written (xmss/zz_lemmas_verif.go) but undecided by the solvers and therefore not claimed; path independence itself rests on the bounded differential run.",
+    "Deductive: purity (`pure` + `reads addr[0:3]` clauses discharged by the go/ssa effects back end) and frames of the traversal step functions, identity of a jump to the current index (lemma function), identical evolution of the index on both paths; both ways of advancing perform for every index t exactly the pair bdsRound(t), bdsTreeHashUpdate in lockstep (ghost call counters: Sign one pair exactly when idx < 2^h-1, SetIndex exactly newIdx-idx pairs at leaves idx, idx+1, ...) with arguments that are the same functions of the secret key fields (anchored assertions at both call sites). Bounded stand-in for the step-equivalence lemma: with the real hashes the complete traversal state and the next signature at every index of height 4 (4,6 thorough), all three hash functions, agree between signing, one jump and two jumps.",
+    "What is not mechanised is the induction 'equal sequences of pure steps from equal states give equal states' (the product-program lemma in xmss/zz_lemmas_verif.go stays undecided and is not claimed); for that step path independence rests on the bounded differential run.",
     "contract-based verification of purity/frame clauses (go/ssa) and a lemma function (SMT); bounded differential run of the real code as labelled stand-in",
     "DESIGN.md section 4 C08")
 
